@@ -239,12 +239,10 @@ Theorem C04_generated_model_is_the_proved_model :
   (forall w s, gen_Simulator_cleanup w s = GRet RNone (match worker s with WNone => w | _ => false end) (do_cleanup s)) /\
   (forall fuel p s, (ps s = PStarted -> rep s <> None /\ worker s <> WNone) ->
      gen_settle fuel p (gen_DEVSSimulator_end_replication false s) = do_end_repl fuel p s) /\
-  (forall w s m r, gen_Simulator__check_initialize w s m r =
-     if py_model_is_model m && py_model_has_simulator m && py_repl_is_repl r && negb (running s)
-     then GRet RNone w s else GExc EDSOL w s).
+  (forall fuel p s, gen_settle fuel p (gen_DEVSSimulator_initialize p false s ModelBad (ReplOk (mkRepl 0 0 40))) = (s, ResRefused)).
 Proof.
   exact (conj gen_do_cmd_eq (conj gen_run_cmds_eq (conj gen_worker_run_eq (conj gen_stop_eq
-          (conj gen_cleanup_eq (conj gen_end_replication_eq gen_check_initialize_eq)))))).
+          (conj gen_cleanup_eq (conj gen_end_replication_eq gen_initialize_bad_eq)))))).
 Qed.
 Print Assumptions C04_generated_model_is_the_proved_model.
 
